@@ -8,3 +8,12 @@ From CG3 Require Import Lib.PyZ Lib.Val Model.IndelMap Model.FeatureMap.
 Definition sp_start (sp : fspan) : Z := match sp with FS s _ _ => s | FL _ => 0 end.
 Definition sp_end (sp : fspan) : Z := match sp with FS _ e _ => e | FL _ => 0 end.
 Definition sp_rev (sp : fspan) : bool := match sp with FS _ _ r => r | FL _ => false end.
+
+(** [IndelMap.make_seq_feature_map] l.1596 on a feature map in alignment coordinates: lost spans are skipped, every other
+    span [start, end) becomes [Span(get_seq_index(start), get_seq_index(end))] (forward), parent = the sequence *)
+Definition real_spans (afm : fmap) : list (Z * Z) :=
+  flat_map (fun sp => match sp with FS s e _ => [(s, e)] | FL _ => [] end) (fspans afm).
+
+Definition make_seq_feature_map (m : imap) (afm : fmap) : res fmap :=
+  bind (make_seq_coords m (real_spans afm)) (fun cs =>
+    Ok (mk_fmap (map (fun se : Z * Z => mk_span (fst se) (snd se) false) cs) (parent_length m))).
